@@ -3,6 +3,8 @@ import LitexProofs.Fhdl.ModuleStep
 import LitexProofs.Fhdl.StaticStmt
 import LitexProofs.Fhdl.LowerCorrect
 import LitexProofs.Fhdl.PrintSign
+import LitexProofs.Fhdl.MemoryEquiv
+import LitexProofs.Fhdl.InstanceExact
 /-
   C01 — generated Verilog behaves exactly like the simulated FHDL design.
 
@@ -311,6 +313,147 @@ example :
     let ρ := envL [10, 5, 200]
     fitsSs ρ ss = true ∧ execFs ρ ss [] = [(2, 201), (2, 88)] ∧
     execVs ρ (printStmts ss) [] = [⟨2, 0, 8, 201⟩, ⟨2, 4, 4, 5⟩] := by decide
+
+/-- **module_schedule_equiv_partial** — `module_step_equiv_partial` read for clock schedules: `cs` is an ARBITRARY
+    edge schedule — each instant names the subset `clks` of clock signals that rise in it (none, one, several
+    domains, in any pattern: different periods, phases, non-coincident edges) and the inputs applied before it.
+    The printed module and the simulator stay in corresponding states at every instant.  (The harness derives `cs`
+    from a clock description and runs the real `run_simulation` against it.) -/
+theorem module_schedule_equiv_partial (f : FModule) (fuel : Nat) (sched : List (List (Nat × Int) × List Nat))
+    (aF aV : Array Int) (h : StRel f.sigs aF aV)
+    (hok : RunOk f fuel aF (sched.map fun ic => ⟨ic.1, ic.2⟩)) :
+    List.Forall₂ (StRel f.sigs)
+      (runF f fuel aF (sched.map fun ic => ⟨ic.1, ic.2⟩))
+      (runV f.sigs (printModule f) fuel aV (sched.map fun ic => ⟨ic.1, ic.2⟩)) :=
+  run_equiv f fuel _ aF aV h hok
+
+/-- Two clock domains with non-coincident edges: `r` (4 bit, clock 2) counts, `q` (4 bit, clock 3) samples `r`;
+    schedule clk2, clk3, clk2, clk2+clk3, none: both sides pass through the same states, and `q` really sees the
+    value `r` had BEFORE a coincident edge. -/
+def exF2 : FModule :=
+  { sigs := #[⟨4, false, 0, "r"⟩, ⟨4, false, 0, "q"⟩, ⟨1, false, 0, "ck_a"⟩, ⟨1, false, 0, "ck_b"⟩],
+    comb := [],
+    sync := [{ name := "a", clk := 2,
+               stmts := .cons (.assign (.sig 0 4 false) (.op2 .add (.sig 0 4 false) (.const 1 1 false))) .nil },
+             { name := "b", clk := 3, stmts := .cons (.assign (.sig 1 4 false) (.sig 0 4 false)) .nil }] }
+
+def exSched : List Cycle := [⟨[], [2]⟩, ⟨[], [3]⟩, ⟨[], [2]⟩, ⟨[], [2, 3]⟩, ⟨[], []⟩]
+
+example : runF exF2 2 (initF exF2) exSched =
+    [#[0, 0, 0, 0], #[1, 0, 0, 0], #[1, 1, 0, 0], #[2, 1, 0, 0], #[3, 2, 0, 0]] := by decide +kernel
+example : runV exF2.sigs (printModule exF2) 2 #[0, 0, 0, 0] exSched =
+    [#[0, 0, 0, 0], #[1, 0, 0, 0], #[1, 1, 0, 0], #[2, 1, 0, 0], #[3, 2, 0, 0]] := by decide +kernel
+
+/-! ## Layer 3 — memories (one port, one clock)
+
+  `memEdgeF`/`memReadF`: one clock edge / `dat_r` of the simulator's MemoryToArray semantics; `memEdgeV`/`memReadV`:
+  of the port template memory.py emits (LitexModel/Fhdl/Memory.lean; both compared with the real simulator and
+  with the independent reading of the real text on every run, inside AND outside the hypotheses below).
+  `memCfgOk c`: granularity 0 or `0 < g < width` (what Migen's `get_port` leaves) — `g ∣ width` is not even needed;
+  `memStOk c st`: `depth` words, registered address `< depth`; `memInOk c i`: address `< depth` (any depth, powers
+  of two or not), reset not asserted, and for NO_CHANGE the enables all clear or all set.
+
+  Full statement (does NOT hold: see the two negative witnesses — the open findings C01-memory-nochange-partial-we
+  and C01-memory-not-reset):
+  theorem mem_port_equiv (c : MemCfg) (st : MemSt) (i : MemIn) (hc : memCfgOk c) (hs : memStOk c st)
+      (ha : i.adr < c.depth) : memEdgeF c st i = memEdgeV c st i
+-/
+
+/-- **mem_port_equiv_partial**: one clock edge of the template = one edge of the array semantics — the write
+    (every enable pattern, every granularity: per-chunk part-select NBAs merge exactly like the simulator's slice
+    assignments with read-back), the registered address / registered data / read enable. -/
+theorem mem_port_equiv_partial (c : MemCfg) (st : MemSt) (i : MemIn) (hc : memCfgOk c = true)
+    (hs : memStOk c st = true) (hi : memInOk c i = true) :
+    memEdgeF c st i = memEdgeV c st i ∧ memReadF c (memEdgeF c st i) i.adr = memReadV c (memEdgeV c st i) i.adr := by
+  have he := memEdge_equiv c st i hc hs hi
+  refine ⟨he, ?_⟩
+  rw [he]
+  have ha : i.adr < c.depth := by
+    simp only [memInOk, Bool.and_eq_true, decide_eq_true_eq] at hi; exact hi.1.1
+  exact memRead_equiv c _ i.adr (memStOk_edgeV c st i hs hi) ha
+
+/-- The four port kinds.  WRITE_FIRST / READ_FIRST / asynchronous read need NO condition on the enables. -/
+theorem mem_port_equiv_writeFirst (c : MemCfg) (st : MemSt) (i : MemIn) (hm : c.mode = .writeFirst)
+    (hc : memCfgOk c = true) (hs : memStOk c st = true) (ha : i.adr < c.depth) (hr : i.rst = false) :
+    memEdgeF c st i = memEdgeV c st i :=
+  memEdge_equiv c st i hc hs (by simp [memInOk, ha, hr, hm])
+
+theorem mem_port_equiv_readFirst (c : MemCfg) (st : MemSt) (i : MemIn) (hm : c.mode = .readFirst)
+    (hc : memCfgOk c = true) (hs : memStOk c st = true) (ha : i.adr < c.depth) (hr : i.rst = false) :
+    memEdgeF c st i = memEdgeV c st i :=
+  memEdge_equiv c st i hc hs (by simp [memInOk, ha, hr, hm])
+
+theorem mem_port_equiv_async (c : MemCfg) (st : MemSt) (i : MemIn) (hm : c.mode = .async)
+    (hc : memCfgOk c = true) (hs : memStOk c st = true) (ha : i.adr < c.depth) (hr : i.rst = false) :
+    memEdgeF c st i = memEdgeV c st i :=
+  memEdge_equiv c st i hc hs (by simp [memInOk, ha, hr, hm])
+
+theorem mem_port_equiv_noChange_partial (c : MemCfg) (st : MemSt) (i : MemIn) (_hm : c.mode = .noChange)
+    (hc : memCfgOk c = true) (hs : memStOk c st = true) (ha : i.adr < c.depth) (hr : i.rst = false)
+    (hwe : tn c.nwe i.we = 0 ∨ tn c.nwe i.we = p2 c.nwe - 1) :
+    memEdgeF c st i = memEdgeV c st i :=
+  memEdge_equiv c st i hc hs (by
+    simp only [memInOk, Bool.and_eq_true, Bool.or_eq_true, decide_eq_true_eq, Bool.not_eq_true']
+    exact ⟨⟨ha, hr⟩, hwe.elim (fun h => Or.inl (Or.inr h)) Or.inr⟩)
+
+/-- **mem_run_equiv_partial**: for EVERY sequence of edges (addresses, data, enables, read enables) within the side
+    condition, from the power-up state, the `dat_r` outputs of the text and of the simulator are the same. -/
+theorem mem_run_equiv_partial (c : MemCfg) (hc : memCfgOk c = true) (hd : 0 < c.depth) (is : List MemIn)
+    (hi : ∀ i ∈ is, memInOk c i = true) : memRunF c (memInit c) is = memRunV c (memInit c) is :=
+  memRun_equiv c hc is _ (memStOk_init c hd) hi
+
+def exMem : MemCfg := { w := 16, g := 8, mode := .writeFirst, hasRe := false, depth := 5, init := [0xbeef, 1] }
+
+/-- Non-vacuity: 16-bit words, byte enables, depth 5 (not a power of two), WRITE_FIRST: write the high byte of
+    word 4, the low byte of word 4, read word 0: hypotheses hold, the bytes merge, both sides give the same. -/
+example :
+    let is : List MemIn := [⟨4, 0xaa55, 2, false, false⟩, ⟨4, 0x1234, 1, false, false⟩, ⟨0, 0, 0, false, false⟩]
+    memCfgOk exMem = true ∧ (∀ i ∈ is, memInOk exMem i = true) ∧
+    memRunF exMem (memInit exMem) is = [0xaa00, 0xaa34, 0xbeef] ∧
+    memRunV exMem (memInit exMem) is = [0xaa00, 0xaa34, 0xbeef] := by decide
+
+/-- Negative witness 1 (finding C01-memory-nochange-partial-we): NO_CHANGE, two byte enables, only one set: the
+    simulator (`If(~we, …)`: reads unless ALL enables are set) updates `dat_r`, the text (`if (!we)`) does not. -/
+example :
+    let c : MemCfg := { w := 16, g := 8, mode := .noChange, hasRe := false, depth := 4, init := [7] }
+    let i : MemIn := ⟨0, 0x1234, 1, false, false⟩
+    memCfgOk c = true ∧ memStOk c (memInit c) = true ∧ memInOk c i = false ∧
+    memReadF c (memEdgeF c (memInit c) i) 0 = 7 ∧ memReadV c (memEdgeV c (memInit c) i) 0 = 0 := by decide
+
+/-- Negative witness 2 (finding C01-memory-not-reset): write word 1, then assert reset: the simulator restores
+    `init` (word 1 = 2 again), the text keeps the written word. -/
+example :
+    let c : MemCfg := { w := 8, g := 0, mode := .async, hasRe := false, depth := 4, init := [1, 2] }
+    let w1 : MemIn := ⟨1, 0x55, 1, false, false⟩
+    let rs : MemIn := ⟨1, 0, 0, false, true⟩
+    memInOk c rs = false ∧ memRunF c (memInit c) [w1, rs] = [0x55, 2] ∧ memRunV c (memInit c) [w1, rs] = [0x55, 0x55] := by
+  decide
+
+/-! ## Instances (`instance.py`)
+
+  `printInstance params ports` (LitexModel/Fhdl/Instance.lean, compared name by name, in order, node for node with
+  the text the real `_instance_generate_verilog` emits): the `#( .NAME (VALUE) … )` list and the connection list. -/
+
+/-- **instance_connections_exact**: the emitted connection list is, up to the grouping inputs / outputs / inouts,
+    EXACTLY the Instance's port items — each item once, under its own name, connected to the expression printer's
+    text of its own expression; nothing dropped, duplicated or invented — and the parameter list is the parameter
+    items in order (Constants through `printConst`, strings quoted, floats / preformatted values verbatim). -/
+theorem instance_connections_exact (ps : List InstParam) (qs : List InstPort) :
+    (printInstance ps qs).ports.Perm (qs.map printPort) ∧
+    (printInstance ps qs).params = ps.map (fun p => (p.name, printParam p.v)) :=
+  ⟨printInstance_ports_perm ps qs, printInstance_params ps qs⟩
+
+/-- Consequence: with distinct port names every name is connected exactly once. -/
+theorem instance_port_names_nodup (ps : List InstParam) (qs : List InstPort) (h : (qs.map (·.name)).Nodup) :
+    ((printInstance ps qs).ports.map (·.1)).Nodup := by
+  have hp := (printInstance_ports_perm ps qs).map (·.1)
+  rw [List.map_map] at hp
+  exact (hp.nodup_iff).2 (by simpa [Function.comp_def, printPort] using h)
+
+/-- The order really changes (outputs declared first are printed after the inputs), the content does not. -/
+example : ((printInstance [] [⟨.output, "O", .sig 0 4 false⟩, ⟨.inout, "P", .sig 2 1 false⟩,
+                              ⟨.input, "I", .op1 .not (.sig 1 4 false)⟩]).ports.map (·.1)) = ["I", "O", "P"] := by
+  decide
 
 /-! ### Non-vacuity (layer 1) -/
 
